@@ -7,10 +7,12 @@
    atomic labels), a ghost generation counter [gen] (number of resets performed by Started), an
    unbounded table of Stop callers and the table of Run cycles.
 
-   [step fx] is the transition function.  [fx = false] is the code as it is in /repo;
-   [fx = true] is the candidate repair (hooks/../repair/c07-generation.patch): the generation
-   is a real field, read in both critical sections of Stop, and Stop returns at once when it
-   moved.  The two differ in exactly one place: the [LSec2] case when [gen s <> c_tgt c].
+   [step fx] is the transition function.  [fx = true] is the code as it is in /repo (since fix
+   b0569e6 the generation is a real field, read in both critical sections of Stop, and Stop
+   returns at once when it moved); all C07 theorems are about [step true].  [fx = false] is the
+   code before that fix (the generation is then only a ghost), kept for the legacy refutation
+   C07_legacy_signalled_progress_refuted.  The two differ in exactly one place: the [LSec2] case
+   when [gen s <> c_tgt c].
 
    Cycles are consecutive (the property's quantifier): [LRunStart] is enabled only when no
    cycle is in progress.  Cycle number r (0-based, chronological) is [cyc_at (cycles s) r]; it is
@@ -29,10 +31,10 @@ Inductive spc :=
 | AfterSec2 (d : chan)     (* second critical section done; about to wait / waiting on doneCh = d *)
 | Returned.
 
-(* c_tgt: the generation current at the first critical section (ghost in the code as it is,
-          the local variable [gen] in the repaired code).  It names the Run this Stop targets.
-   c_span: ghost, set by the second critical section iff it ran in a later generation than
-          the first one (the shape F14 / key stop-spans-cycle-reset). *)
+(* c_tgt: the generation current at the first critical section (the local variable [gen] of
+          Stop; a ghost in the legacy code).  It names the Run this Stop targets.
+   c_span: ghost, set only by the legacy step function when the second critical section ran in a
+          later generation than the first one (the shape of F14); never set by [step true]. *)
 Record caller := mkCaller { c_pc : spc; c_tgt : nat; c_span : bool }.
 
 Inductive rpc := Body | Exiting | Finished.
@@ -133,10 +135,10 @@ Definition step (fx : bool) (s : state) (l : label) : option state :=
           if gen s =? g then
             Some (with_callers s (upd (callers s) k (mkCaller (AfterSec2 (doneCh s)) g false)))
           else if fx then
-            (* repaired code: the generation moved, the targeted Run has returned: return *)
+            (* the generation moved, the targeted Run has returned: return *)
             Some (with_callers s (upd (callers s) k (mkCaller Returned g false)))
           else
-            (* code as it is: picks up the doneCh of a later cycle *)
+            (* legacy code: picks up the doneCh of a later cycle *)
             Some (with_callers s (upd (callers s) k (mkCaller (AfterSec2 (doneCh s)) g true)))
       | _ => None
       end
@@ -205,7 +207,7 @@ Definition obs_stop_closed (s : state) : bool := is_closed s (stopCh s).
 Definition is_tau (l : label) : bool :=
   match l with LWaitStarted _ | LWaitDone _ | LRunSeeStop => true | _ => false end.
 
-(* ---------- the witness of F14 (key stop-spans-cycle-reset) ---------- *)
+(* ---------- the witness of F14 (legacy code; regression case in corpus/C07) ---------- *)
 Definition f14_schedule : list label :=
   [LSpawn; LRunStart; LSec1 0; LWaitStarted 0; LRunSeeStop; LDone; LRunStart; LSec2 0].
 
